@@ -40,6 +40,27 @@ def do_infer(c):
     return {"label": lab, "var_types": var_types, "calls": calls}
 
 
+def do_toc(c):
+    """var_types after the real _to_c_expr translated c["src"] (a comprehension); c["vars"]: name -> folded constant"""
+    var_types = dict(c["var_types"])
+    functions = {}
+    for name, ent in c["functions"].items():
+        functions[name] = ent if isinstance(ent, str) else {tuple(sig): lab for sig, lab in ent}
+    ctx = {k: set(v) for k, v in (c["ctx"] or {}).items()}
+    ctx["function_signature_aliases"] = {n: {tuple(a): tuple(b) for a, b in prs} for n, prs in c["aliases"].items()}
+    ctx["var_types"] = var_types
+    ctx["functions"] = functions
+    vars_env = dict(c.get("vars", {}))
+    before = dict(vars_env)
+    try:
+        P._to_c_expr(c["src"], vars_env, ctx)
+    except ValueError:
+        return {"exc": "ValueError", "var_types": ctx["var_types"]}
+    except Exception as e:  # noqa
+        return {"exc": kind(e), "var_types": ctx["var_types"]}
+    return {"var_types": ctx["var_types"], "vars_same": {k: v for k, v in vars_env.items() if not k.startswith("_")} == before}
+
+
 TY = r"(?:int|float|bool|String|void|__redu_list<[\w<>]+>)"
 RE_DECL = re.compile(rf"^(\s*)({TY})\s+([A-Za-z_]\w*)\s*(?:=.*)?;\s*$")
 RE_FUNC = re.compile(rf"^({TY})\s+([A-Za-z_]\w*)\s*\((.*)\)\s*\{{\s*$")
@@ -110,6 +131,8 @@ def main():
         op = c[0]
         if op == "infer":
             out.append(do_infer(c[1]))
+        elif op == "toc":
+            out.append(do_toc(c[1]))
         elif op == "decls":
             out.append(do_decls(c[1]))
         elif op == "cpp":
